@@ -383,12 +383,12 @@ def vetoed(lk, cand, w, info, medges, shifted=False):
 def build(links, w, applied):
     """molecule content from blocks + applied instances [(link index, candidate)] in definition order"""
     info = atom_info(w)
-    inter, edges, repl = {}, set(), {}
+    inter, edges, repl, alt, last = {}, set(), {}, {}, {}
     for i in range(w["n"]):
         r, rn = w["resids"][i], w["names"][i]
         inter[("bonds", ((r, "X"), (r, "Y")), 1)] = [tuple(BLOCKS[rn]["bond"])]
         edges.add(frozenset(((r, "X"), (r, "Y"))))
-    for li, cand in sorted(applied, key=lambda x: x[0]):
+    for ci, (li, cand) in enumerate(sorted(applied, key=lambda x: x[0])):
         lk = links[li]
         m = cand["match"]
         dup = {}
@@ -401,7 +401,13 @@ def build(links, w, applied):
                 dup[(t, atoms)] = n_before + 1
             else:
                 v = 1 if version is None else version
-            inter[(t, atoms, v)] = [tuple(params)]
+            key = (t, atoms, v)
+            if key in last and last[key][0] == li and last[key][1] != ci:
+                alt[key].add(tuple(params))       # two instances of ONE link define the same atoms: the statement does not say which wins
+            else:
+                alt[key] = {tuple(params)}
+            inter[key] = [tuple(params)]
+            last[key] = (li, ci)
         for k in link_edges(lk):
             a, b = tuple(k)
             edges.add(frozenset((m[a], m[b])))
@@ -411,7 +417,7 @@ def build(links, w, applied):
     attrs = {}
     for ident, d in info.items():
         attrs[ident] = {"resname": d["resname"], "atype": repl.get((ident, "atype"), d["atype"])}
-    return {"inter": inter, "edges": edges, "attrs": attrs}
+    return {"inter": inter, "edges": edges, "attrs": attrs, "alt": alt}
 
 
 def normalise(inter, drop_version):
@@ -548,13 +554,21 @@ def diff(exp, act, drop_version, missing="MISSING", extra="EXTRA", names=("expec
     """both directions; returns list of texts"""
     out = []
     ei, ai = normalise(exp["inter"], drop_version), normalise(act["inter"], drop_version)
+    choices = {}
+    for (t, atoms, v), plist in exp["inter"].items():
+        nk = (t, atoms) if drop_version else (t, atoms, v)
+        if (t, atoms, v) in exp.get("alt", {}):
+            choices.setdefault(nk, []).append(sorted(exp["alt"][(t, atoms, v)]))
+        else:
+            choices.setdefault(nk, [])
+            choices[nk] += [[tuple(q)] for q in plist]
     for k in sorted(set(ei) | set(ai), key=str):
         if k not in ai:
             out.append("%s interaction %s %s" % (missing, fmt_key(k), ei[k]))
         elif k not in ei:
             out.append("%s interaction %s %s" % (extra, fmt_key(k), ai[k]))
-        elif ei[k] != ai[k]:
-            out.append("WRONG parameters %s: %s %s %s %s" % (fmt_key(k), names[0], ei[k], names[1], ai[k]))
+        elif ei[k] != ai[k] and not any(sorted(c) == ai[k] for c in itertools.product(*choices[k])):
+            out.append("WRONG parameters %s: %s %s %s %s" % (fmt_key(k), names[0], [c if len(c) > 1 else c[0] for c in choices[k]], names[1], ai[k]))
     for e in sorted(exp["edges"] - act["edges"], key=str):
         out.append("%s edge %s" % (missing, sorted(e)))
     for e in sorted(act["edges"] - exp["edges"], key=str):
@@ -954,6 +968,11 @@ def c02_specs(thorough):
     if thorough:
         for i, j, k in itertools.combinations(range(len(pool)), 3):
             specs.append(({"syntax": "ff", "links": [pool[i], pool[j], pool[k]]}, ("plain",), False))
+    # a forbidden edge that exists before the vetoed link is processed, `from` atom outside the reference residue
+    specs.append(({"syntax": "ff", "links": [
+        link([atom(0, "Y", AB), atom(1, "X", AB)], [("bonds", ["Y", "+X"], P["a"], None)], tag="bond Y+X"),
+        link([atom(0, "X", AB), atom(1, "X", AB), atom(1, "Y", AB)], [("bonds", ["X", "+X"], P["e"], None)], non_edges=[("+Y", 2, "X", {})],
+             tag="X+X unless +Y-++X")]}, ("plain",), False))
     # polyply-style monomers with dangling interactions
     for name, d in ITP_DANGLING:
         specs.append(({"syntax": "itp", "dangling": {"A": d}}, ("plain", "paths"), False))
@@ -1014,12 +1033,13 @@ def run_c02(ctx, res):
                      "order{+1,+2,-1,>,>>,<,*} x atoms{Y-X,X-X} x 6 resname forms (single/choice/none); every 3-residue link over ordered pairs of "
                      "those orders x shapes{path, centred, triangle via [edges], isolated third residue}%s; one feature at a time on base links "
                      "(extra attribute, atom-name choice, link-level resname, replace, [edges], edges-only, non-bond interaction, [patterns] x4, versions, "
-                     "[non-edges] x5, chain-end marker, 3-residue variants); labelled [edges] links; all unordered pairs of a pool of 12 links in BOTH "
+                     "[non-edges] x5 (+2 whose `from` atom is outside the reference residue), conflicting resnames in one residue, chain-end marker, 3-residue variants); "
+                     "every 6th (thorough: every) 4-residue link over ordered triples x {path, star, ring}; labelled [edges] links; all unordered pairs of a pool of 12 links in BOTH "
                      "definition orders; %d polyply-style monomer .itp worlds with dangling bonds/angles/dihedrals/constraints (`Y +X`, `X Y +X`, "
                      "`Y +X ++X`, ...); monomers from .itp + links from .ff in both reading orders.  x residue graphs: every connected graph on <= %d "
                      "nodes (networkx atlas) x every resname assignment over {A,B} x {resids 1..n in node order, one seeded shuffled assignment} = %d "
                      "graph worlds (+ %d with linktype-labelled residue edges for the labelled links, + %d linear chains of length 5..%d for the dangling-window clause)"
-                     % (n_ff, ", every 4-residue link over ordered triples x {path, star, ring}; all triples of the pool" if ctx.thorough else "",
+                     % (n_ff, "; all triples of the pool" if ctx.thorough else "",
                         2 * len(ITP_DANGLING) + 2, nmax, len(sets["plain"]), len(sets["label"]), len(sets["paths"]), 8 if ctx.thorough else 6))
         res.rule = ("world = (force-field files, residue graph); MapToMolecule.run_molecule then ApplyLinks.run_molecule on the real tree; interactions, "
                     "edges and atom attributes of meta.molecule compared in both directions with link_instances (oracle from the statement).  "
